@@ -34,9 +34,11 @@ def main():
             p = subprocess.run(["/verif/check", pid, "--tier", tier], capture_output=True, text=True, env=env)
             viol = [l for l in p.stdout.splitlines() if l.startswith("VIOLATION")]
             first = ""
-            for i, l in enumerate(p.stdout.splitlines()):
-                if l.startswith("VIOLATION"):
-                    first = "\n".join(p.stdout.splitlines()[i:i+2]); break
+            base = set(open("/verif/scratch/baseline_cases_%s.txt" % pid).read().split("\n")) if os.path.exists("/verif/scratch/baseline_cases_%s.txt" % pid) else set()
+            lines = p.stdout.splitlines()
+            for i, l in enumerate(lines):
+                if l.startswith("VIOLATION") and i + 1 < len(lines) and lines[i + 1].split(" cfg=")[0].strip() not in base:
+                    first = "\n".join(lines[i:i+2]); break
             verdict = "KILLED" if (p.returncode == 1 and viol) else ("SURVIVED" if p.returncode == 0 else "ERROR rc=%d" % p.returncode)
             out[pid] = verdict
             print("%s vs %s [%s]: %s (%d violations)%s" % (sid, pid, tier, verdict, len(viol), ("\n" + first[:600]) if first else ("\n" + p.stdout[-600:] + p.stderr[-600:] if verdict.startswith("ERROR") else "")))
